@@ -1,4 +1,133 @@
+// Kani harnesses hosted by the hook in expr-common/src/casts.rs (property C47): the common type chosen for a
+// comparison between integer / decimal types never silently loses information.
 #[allow(unused_qualifications, unused_imports, dead_code, clippy::all)]
 mod verif_kani {
     use super::*;
+    use crate::type_coercion::binary::{binary_numeric_coercion, comparison_coercion};
+    use arrow::datatypes::{DECIMAL32_MAX_PRECISION, DECIMAL64_MAX_PRECISION, DECIMAL128_MAX_PRECISION, DECIMAL256_MAX_PRECISION};
+
+    // an abstract description of an integer or decimal type
+    #[derive(Clone, Copy, PartialEq, Eq)]
+    enum Num { Int { signed: bool, bits: u8 }, Dec { width: u16, p: u8, s: i8 } }
+
+    fn describe(t: &DataType) -> Option<Num> {
+        Some(match t {
+            DataType::Int8 => Num::Int { signed: true, bits: 8 }, DataType::Int16 => Num::Int { signed: true, bits: 16 },
+            DataType::Int32 => Num::Int { signed: true, bits: 32 }, DataType::Int64 => Num::Int { signed: true, bits: 64 },
+            DataType::UInt8 => Num::Int { signed: false, bits: 8 }, DataType::UInt16 => Num::Int { signed: false, bits: 16 },
+            DataType::UInt32 => Num::Int { signed: false, bits: 32 }, DataType::UInt64 => Num::Int { signed: false, bits: 64 },
+            DataType::Decimal32(p, s) => Num::Dec { width: 32, p: *p, s: *s }, DataType::Decimal64(p, s) => Num::Dec { width: 64, p: *p, s: *s },
+            DataType::Decimal128(p, s) => Num::Dec { width: 128, p: *p, s: *s }, DataType::Decimal256(p, s) => Num::Dec { width: 256, p: *p, s: *s },
+            _ => return None,
+        })
+    }
+    fn max_precision(width: u16) -> u8 {
+        match width { 32 => DECIMAL32_MAX_PRECISION, 64 => DECIMAL64_MAX_PRECISION, 128 => DECIMAL128_MAX_PRECISION, _ => DECIMAL256_MAX_PRECISION }
+    }
+    /// decimal digits needed for every value of the integer type
+    fn int_digits(signed: bool, bits: u8) -> i32 { match (signed, bits) { (_, 8) => 3, (_, 16) => 5, (_, 32) => 10, (true, _) => 19, (false, _) => 20 } }
+    /// number of decimal digits d such that every d-digit number fits the integer type
+    fn int_safe_digits(signed: bool, bits: u8) -> i32 { match (signed, bits) { (_, 8) => 2, (_, 16) => 4, (_, 32) => 9, (true, _) => 18, (false, _) => 19 } }
+
+    /// Every value of `a` is represented exactly in `r`, or converting it to `r` overflows (an error, never a
+    /// silently different number): fractional digits are never dropped, integer digits only at the width's maximum precision.
+    fn no_silent_loss(a: Num, r: Num) -> bool {
+        match (a, r) {
+            (Num::Int { signed: sa, bits: ba }, Num::Int { signed: sr, bits: br }) =>
+                if sa == sr { br >= ba } else { sr && br > ba },
+            (Num::Int { signed, bits }, Num::Dec { width, p, s }) =>
+                s >= 0 && ((p as i32 - s as i32) >= int_digits(signed, bits) || p == max_precision(width)),
+            (Num::Dec { p: p1, s: s1, .. }, Num::Dec { width, p, s }) =>
+                s >= s1 && ((p as i32 - s as i32) >= (p1 as i32 - s1 as i32) || p == max_precision(width)),
+            // a decimal without fractional digits holds integers only: the cast to an integer type is exact or overflows (error)
+            (Num::Dec { s: s1, .. }, Num::Int { .. }) => s1 <= 0,
+        }
+    }
+
+    // The type constructors are chosen CONCRETELY (loops over all of them), only precision and scale are symbolic:
+    // with a symbolic variant CBMC has to carry the whole DataType enum through `==`, `clone` and the matches.
+    fn int_type(k: u8) -> DataType {
+        match k {
+            0 => DataType::Int8, 1 => DataType::Int16, 2 => DataType::Int32, 3 => DataType::Int64,
+            4 => DataType::UInt8, 5 => DataType::UInt16, 6 => DataType::UInt32, _ => DataType::UInt64,
+        }
+    }
+    /// any decimal type of the given width that Arrow accepts (validate_decimal_precision_and_scale), scale not below -40
+    fn decimal_type(w: u8) -> DataType {
+        let p: u8 = kani::any();
+        let s: i8 = kani::any();
+        let maxp = match w { 0 => DECIMAL32_MAX_PRECISION, 1 => DECIMAL64_MAX_PRECISION, 2 => DECIMAL128_MAX_PRECISION, _ => DECIMAL256_MAX_PRECISION };
+        kani::assume(p >= 1 && p <= maxp && s >= -40 && (s <= 0 || s as u8 <= p));
+        match w { 0 => DataType::Decimal32(p, s), 1 => DataType::Decimal64(p, s), 2 => DataType::Decimal128(p, s), _ => DataType::Decimal256(p, s) }
+    }
+
+    fn check_pair(a: DataType, b: DataType) {
+        let r = binary_numeric_coercion(&a, &b);
+        let r2 = binary_numeric_coercion(&b, &a);
+        let (da, db) = (describe(&a).unwrap(), describe(&b).unwrap());
+        match (&r, &r2) {
+            (Some(x), Some(y)) => assert!(describe(x) == describe(y), "C47.coercion.symmetric_in_its_operands"),
+            (None, None) => {}
+            _ => assert!(false, "C47.coercion.symmetric_in_its_operands"),
+        }
+        if let Some(t) = &r {
+            let dr = describe(t);
+            assert!(dr.is_some(), "C47.coercion.integer_decimal_pair_gets_integer_or_decimal_type");
+            let dr = dr.unwrap();
+            assert!(no_silent_loss(da, dr), "C47.coercion.common_type_loses_nothing_of_the_left_operand");
+            assert!(no_silent_loss(db, dr), "C47.coercion.common_type_loses_nothing_of_the_right_operand");
+        }
+        kani::cover!(r.is_some());
+        std::mem::forget(r); std::mem::forget(r2); std::mem::forget(a); std::mem::forget(b);
+    }
+
+    #[kani::proof]
+    #[kani::unwind(9)]
+    fn c47_coercion_int_int() {
+        let mut i = 0u8;
+        while i < 8 { let mut j = 0u8; while j < 8 { check_pair(int_type(i), int_type(j)); j += 1; } i += 1; }
+    }
+
+    // one loop-free harness per pair of type constructors (precision and scale symbolic): a harness over several
+    // constructors at once takes CBMC tens of minutes or exhausts memory, a single pair takes seconds
+    macro_rules! dec_int { ($($name:ident: $w:expr, $k:expr;)*) => { $(
+        #[kani::proof]
+        fn $name() { check_pair(decimal_type($w), int_type($k)); }
+    )* } }
+    dec_int! {
+        c47_coercion_d32_i8: 0, 0;  c47_coercion_d32_i16: 0, 1;  c47_coercion_d32_i32: 0, 2;  c47_coercion_d32_i64: 0, 3;
+        c47_coercion_d32_u8: 0, 4;  c47_coercion_d32_u16: 0, 5;  c47_coercion_d32_u32: 0, 6;  c47_coercion_d32_u64: 0, 7;
+        c47_coercion_d64_i8: 1, 0;  c47_coercion_d64_i16: 1, 1;  c47_coercion_d64_i32: 1, 2;  c47_coercion_d64_i64: 1, 3;
+        c47_coercion_d64_u8: 1, 4;  c47_coercion_d64_u16: 1, 5;  c47_coercion_d64_u32: 1, 6;  c47_coercion_d64_u64: 1, 7;
+        c47_coercion_d128_i8: 2, 0; c47_coercion_d128_i16: 2, 1; c47_coercion_d128_i32: 2, 2; c47_coercion_d128_i64: 2, 3;
+        c47_coercion_d128_u8: 2, 4; c47_coercion_d128_u16: 2, 5; c47_coercion_d128_u32: 2, 6; c47_coercion_d128_u64: 2, 7;
+        c47_coercion_d256_i8: 3, 0; c47_coercion_d256_i16: 3, 1; c47_coercion_d256_i32: 3, 2; c47_coercion_d256_i64: 3, 3;
+        c47_coercion_d256_u8: 3, 4; c47_coercion_d256_u16: 3, 5; c47_coercion_d256_u32: 3, 6; c47_coercion_d256_u64: 3, 7;
+    }
+
+    fn decimal_vs_decimal(i: u8, j: u8) {
+        let (a, b) = (decimal_type(i), decimal_type(j));
+        // Domain restriction (observation O6 in DESIGN.md 9.5): get_wider_decimal_type computes
+        // `(range + s) as u8` in i8; for Decimal256 operands such as (76, 0) vs (76, 76) the sum exceeds 127 and
+        // debug builds panic (release builds wrap to the value that is then clamped, i.e. the right type).
+        // A panicking comparison "evaluates with an error", which C47 does not speak about, so those pairs are excluded.
+        if let (Some(Num::Dec { p: p1, s: s1, .. }), Some(Num::Dec { p: p2, s: s2, .. })) = (describe(&a), describe(&b)) {
+            let r1 = p1 as i32 - s1 as i32; let r2 = p2 as i32 - s2 as i32;
+            let range = if r1 > r2 { r1 } else { r2 };
+            let s = if s1 > s2 { s1 } else { s2 } as i32;
+            kani::assume(range + s <= 127);
+        }
+        check_pair(a, b);
+    }
+    macro_rules! dec_dec { ($($name:ident: $w:expr, $k:expr;)*) => { $(
+        #[kani::proof]
+        fn $name() { decimal_vs_decimal($w, $k); }
+    )* } }
+    // symmetric pairs are covered by the symmetry assertion, so only i <= j
+    dec_dec! {
+        c47_coercion_d32_d32: 0, 0; c47_coercion_d32_d64: 0, 1; c47_coercion_d32_d128: 0, 2; c47_coercion_d32_d256: 0, 3;
+        c47_coercion_d64_d64: 1, 1; c47_coercion_d64_d128: 1, 2; c47_coercion_d64_d256: 1, 3;
+        c47_coercion_d128_d128: 2, 2; c47_coercion_d128_d256: 2, 3;
+        c47_coercion_d256_d256: 3, 3;
+    }
 }
